@@ -998,8 +998,23 @@ func c07BurstCase(c *mon.Case, retry bool) {
 				for kk := range listed {
 					add(kk)
 				}
+				var wantRemoved []string
+				for _, kk := range keys {
+					if present[kk] && !listed[kk] {
+						wantRemoved = append(wantRemoved, kk)
+					}
+				}
 				call := c.Rec("d", fmt.Sprint("SyncKeys ", list), nil)
 				_, removed := w.k.SyncKeys(list, r.IntN(2) == 0)
+				got := map[string]bool{}
+				for _, kk := range removed {
+					got[kk] = true
+				}
+				for _, kk := range wantRemoved {
+					if !got[kk] {
+						c.Violate("removal", "keyed-synckeys-did-not-remove", "SyncKeys(%v) did not remove key %s, which was in the set and is not listed (removed=%v)", list, kk, removed)
+					}
+				}
 				for _, kk := range removed {
 					removeClaim(kk, call)
 				}
@@ -1264,7 +1279,7 @@ func c07DelayedRemovalCase(c *mon.Case) {
 // whatever non-restarting calls land inside the backoff interval.
 func c07RetryTemplateCase(c *mon.Case) {
 	r := c.Rng
-	variant := r.IntN(4)
+	variant := r.IntN(5)
 	failNow := make(chan struct{})
 	behave := func(n int, key string, ctor int) (bool, int, error) {
 		if n == 0 {
@@ -1320,6 +1335,11 @@ func c07RetryTemplateCase(c *mon.Case) {
 		case 1:
 			what = "SyncKeys([a], restart=false)"
 			w.k.SyncKeys([]string{"a"}, false)
+		case 4:
+			// a context change that does not restart errored routines must leave the retry in place
+			what = "SetContext(other context, restart=false)"
+			ctx2, _ := cx.fresh()
+			w.k.SetContext(ctx2, false)
 		default:
 			what = "GetKey/GetKeys/GetKeysWithData"
 			w.k.GetKey("a")
